@@ -139,14 +139,6 @@ def check_fixed(ctx, classes):
         mt = ev.name(MSG, "MESSAGE_TYPE")
         ok = first.offset == 0 and first.bits == 8 and not first.signed and fields[0][1] == mt
         ctx.check("C15.S", f"{c.name}:type-byte-first", ok, f"{c.name}: the first field {fields[0][0]} is not the message-type byte at offset 0", c.loc())
-        # decode = generic from_buffer_copy of cls
-        r = repo.lookup(c, "deserialize_from")
-        ok = False
-        if r is not None:
-            rets = A.returns(r[1])
-            p = A.param_names(r[1])
-            ok = len(rets) == 1 and A.norm(rets[0].value) == f"{p[0]}.from_buffer_copy({p[1]})"
-        ctx.check("C15.S", f"{c.name}:decoded-by-own-struct", ok, f"{c.name}.deserialize_from is not cls.from_buffer_copy(raw)", c.loc())
         # constructor, executed by the checker's interpreter (super().__init__ of a ctypes structure fills the declared fields in order):
         # with a distinct value for every parameter, the type byte holds TYPE.value and every declared field named like a parameter
         # holds that parameter's value - however the constructor is written (helpers, loops over keyword arguments, ...)
@@ -311,254 +303,17 @@ def optional_codec(ctx, c) -> Optional[str]:
 
 
 def check_variable(ctx, classes):
+    """what is left of the structural rules on the variable-length messages: the type prefix constant and the optional-int codec (C15.H).
+    Writer / reader agreement itself is decided by executing both (C15.T)."""
     repo, ev = ctx.repo, ctx.ev
-    m = repo.module(MSG)
     mtb = ev.name(MSG, "MESSAGE_TYPE_BYTES")
     mt = ev.name(MSG, "MESSAGE_TYPE")
     ctx.check("C15.V", "MESSAGE_TYPE_BYTES=sizeof(MESSAGE_TYPE)", isinstance(mt, CScalar) and mtb == mt.size, f"MESSAGE_TYPE_BYTES={mtb} but the type is {mt}")
-    n = 0
-    for q, c in sorted(classes.items()):
-        if ev.is_struct(c):
-            continue
-        n += 1
-        wb, rd = c.methods.get("__bytes__"), c.methods.get("deserialize_from")
-        init = c.methods.get("__init__")
-        if not (wb and rd and init):
-            ctx.error("C15.V", f"{c.name}: __bytes__/deserialize_from/__init__ missing")
-            continue
-        ctx.fn(q + ".__bytes__")
-        ctx.fn(q + ".deserialize_from")
-        # constructor: self.type = self.TYPE.value
-        ok = any(isinstance(st, ast.Assign) and A.is_self_attr(st.targets[0], "type") and A.norm(st.value) == "self.TYPE.value" for st in A.body_nodes(init))
-        ctx.check("C15.V", f"{c.name}:type-is-TYPE", ok, f"{c.name}.__init__ does not set self.type = self.TYPE.value", c.loc(init))
-        # ---- writer segments
-        defs = A.single_defs(wb)
-        rets = A.returns(wb)
-        if len(rets) != 1:
-            ctx.error("C15.V", f"{c.name}.__bytes__: expected one return")
-            continue
-        terms = []
-
-        def flat(e):
-            if isinstance(e, ast.BinOp) and isinstance(e.op, ast.Add):
-                flat(e.left)
-                flat(e.right)
-            else:
-                terms.append(e)
-        flat(rets[0].value)
-        segs = []
-        bad = False
-        for t in terms:
-            t = A.expand(t, defs)  # a term may be a local holding bytes(...)
-            if not (isinstance(t, ast.Call) and dotted(t.func) == "bytes" and len(t.args) == 1):
-                bad = True
-                break
-            x = A.expand(t.args[0], defs)
-            segs.append(x)
-        if bad or not segs:
-            ctx.error("C15.V", f"{c.name}.__bytes__: not a concatenation of bytes(...) terms")
-            continue
-        # first segment: MESSAGE_TYPE(self.type)
-        s0 = segs[0]
-        ok = isinstance(s0, ast.Call) and ev.try_eval(s0.func, m) == mt and len(s0.args) == 1 and A.norm(s0.args[0]) == "self.type"
-        ctx.check("C15.V", f"{c.name}:writer:type-byte-first", ok, f"{c.name}.__bytes__ does not start with the type byte MESSAGE_TYPE(self.type)", c.loc(wb))
-        # ---- reader: track offset of raw
-        rawp = A.param_names(rd)[1]
-        # views of the input: a name bound to <view>[k:] starts k bytes further (re-binding the parameter itself or a new name)
-        views = {rawp: 0}
-        reads = []  # (offset, type value, var name)
-        varmap = {}
-        unknown = False
-        def view_offset(e):
-            """offset of a view of the input: a name of `views`, or <view>[k:] written in place"""
-            if isinstance(e, ast.Name) and e.id in views:
-                return views[e.id]
-            if isinstance(e, ast.Subscript) and isinstance(e.slice, ast.Slice) and e.slice.upper is None and e.slice.step is None:
-                base_ = view_offset(e.value)
-                k_ = (_eval_len(ctx, m, e.slice.lower) if e.slice.lower is not None else 0) if base_ is not None else None
-                return base_ + k_ if base_ is not None and k_ is not None else None
-            return None
-
-        for st in rd.body:
-            if isinstance(st, ast.Expr) and isinstance(st.value, ast.Constant):
-                continue
-            if isinstance(st, ast.Assign) and len(st.targets) == 1 and isinstance(st.targets[0], ast.Name):
-                tname, v = st.targets[0].id, st.value
-                if isinstance(v, ast.Subscript) and isinstance(v.value, ast.Name) and v.value.id in views and isinstance(v.slice, ast.Slice) and v.slice.upper is None and v.slice.step is None:
-                    k = _eval_len(ctx, m, v.slice.lower) if v.slice.lower is not None else 0
-                    if k is None:
-                        unknown = True
-                        break
-                    views[tname] = views[v.value.id] + k
-                    continue
-                if isinstance(v, ast.Call) and isinstance(v.func, ast.Attribute) and v.func.attr == "from_buffer_copy" and len(v.args) == 1 and view_offset(v.args[0]) is not None:
-                    t = ev.try_eval(v.func.value, m, varmap)
-                    reads.append((view_offset(v.args[0]), t, tname, v.func.value))
-                    varmap[tname] = ("read", len(reads) - 1)
-                    continue
-                for x in ast.walk(v):
-                    if isinstance(x, ast.Call) and isinstance(x.func, ast.Attribute) and x.func.attr == "from_buffer_copy" and len(x.args) == 1 and view_offset(x.args[0]) is not None:
-                        reads.append((view_offset(x.args[0]), None, None, x.func.value))
-                varmap[tname] = ("expr", v)
-                continue
-            if isinstance(st, ast.Return):
-                continue
-            unknown = True
-        off = views[rawp]
-        if unknown:
-            ctx.error("C15.V", f"{c.name}.deserialize_from: statement form outside the enumerated idioms")
-            continue
-        rets = A.returns(rd)
-        rcall = rets[0].value if len(rets) == 1 and isinstance(rets[0].value, ast.Call) and dotted(rets[0].value.func) == "cls" else None
-        if rcall is None:
-            ctx.error("C15.V", f"{c.name}.deserialize_from does not return cls(...)")
-            continue
-        rkw = A.kwargs_of(rcall)
-        init_params = A.param_names(init)[1:]
-        for i, a in enumerate(rcall.args):
-            rkw[init_params[i]] = a
-        # locals of the reader that only name a part of something read (`length = hdr.length`) stand for that expression
-        exprdefs = {k_: v_[1] for k_, v_ in varmap.items() if v_[0] == "expr" and not any(isinstance(x_, ast.Call) for x_ in ast.walk(v_[1]))
-                    and sum(1 for n_ in ast.walk(rd) if isinstance(n_, ast.Name) and n_.id == k_ and isinstance(n_.ctx, ast.Store)) == 1}
-        rkw = {k_: A.expand(v_, exprdefs) for k_, v_ in rkw.items()}
-        # which self attributes are set from which ctor params
-        attr_from_param = {}
-        for st in A.body_nodes(init):
-            if isinstance(st, ast.Assign) and A.is_self_attr(st.targets[0]):
-                for x in ast.walk(st.value):
-                    if isinstance(x, ast.Name) and x.id in init_params:
-                        attr_from_param.setdefault(st.targets[0].attr, set()).add(x.id)
-        if len(segs) == 2 and not isinstance(segs[1], ast.Call):
-            # | TYPE | opaque rest |
-            src_attr = segs[1].attr if A.is_self_attr(segs[1]) else None
-            params = attr_from_param.get(src_attr, set())
-            ok = False
-            for pn in params:
-                v = rkw.get(pn)
-                if isinstance(v, ast.Subscript) and isinstance(v.value, ast.Name) and v.value.id == rawp and isinstance(v.slice, ast.Slice) and v.slice.upper is None:
-                    k = _eval_len(ctx, m, v.slice.lower)
-                    ok = k is not None and off + k == mt.size
-            ctx.check("C15.V", f"{c.name}:payload-offset", ok,
-                      f"{c.name}: the writer emits | type byte | {src(segs[1])} | but the reader does not take the payload from offset {mt.size} to the end", c.loc(rd),
-                      sample={"class": c.name, "writer": [src(s) for s in segs], "reader_kwargs": {k: src(v) for k, v in rkw.items()}})
-            continue
-        # | TYPE | struct header | array payload |
-        woff = mt.size
-        for si, seg in enumerate(segs[1:]):
-            if not isinstance(seg, ast.Call):
-                # where does the segment object come from?
-                shared = None
-                if isinstance(seg, ast.Name):
-                    for v in A.assigned_names(wb).get(seg.id, []):
-                        if v is None:
-                            continue
-                        for x in ast.walk(v):
-                            if isinstance(x, ast.Attribute) and isinstance(x.value, ast.Name) and x.value.id in ("self", "cls", c.name) and x.attr not in ("values", "address", "type", "subroutine"):
-                                la = repo.lookup_attr(c, x.attr)
-                                if la is not None:
-                                    shared = f"{c.name}.{x.attr}"
-                if shared is not None:
-                    ctx.check("C15.V", f"{c.name}:segment{si + 1}:built-from-this-message-only", False,
-                              f"{c.name}.__bytes__ serialises `{src(seg)}`, an object taken from the class-level container {shared} that outlives the call: "
-                              f"bytes of one message can carry field values written for an earlier message (e.g. an undefined entry keeps a stale integer)", c.loc(wb))
-                else:
-                    ctx.error("C15.V", f"{c.name}.__bytes__: segment {src(seg)[:50]} not understood")
-                break
-            # type of the segment
-            ftype = seg.func
-            t = None
-            count_expr = None
-            if isinstance(ftype, ast.BinOp) and isinstance(ftype.op, ast.Mult):
-                elem = ev.try_eval(ftype.left, m)
-                t = ("array", elem)
-                count_expr = ftype.right
-            else:
-                t = ("struct", ev.try_eval(ftype, m))
-            r = [x for x in reads if x[0] == woff]
-            if t[0] == "struct":
-                ok = bool(r) and r[0][1] == t[1] and isinstance(t[1], CStructRef)
-                ctx.check("C15.V", f"{c.name}:segment{si + 1}:same-struct-same-offset", ok,
-                          f"{c.name}: writer puts {src(ftype)} at offset {woff}; reader reads {[(x[0], src(x[3])) for x in reads]}", c.loc(rd),
-                          sample={"class": c.name, "segment": src(ftype), "offset": woff})
-                if not ok:
-                    break
-                hc = wire.struct_class(ev, t[1])
-                hdr_var = r[0][2]
-                hdr_fields = [f for f, _, _ in wire.struct_fields(ev, hc)]
-                wkw = A.kwargs_of(seg)
-                for i, a in enumerate(seg.args):
-                    wkw[hdr_fields[i]] = a
-                hdr_written = wkw
-                woff += wire.sizeof(ev, t[1])
-                # every written header field is read somewhere in the reader through hdr_var
-                used = {x.attr for x in ast.walk(rd) if isinstance(x, ast.Attribute) and isinstance(x.value, ast.Name) and x.value.id == hdr_var}
-                for f in hdr_fields:
-                    ctx.check("C15.V", f"{c.name}:header.{f}:written-and-read", f in wkw and f in used,
-                              f"{c.name}: header field {f} written={f in wkw} read={f in used}", c.loc(rd))
-            else:
-                elem = t[1]
-                # reader array type: E * hdr.length (a local expr)
-                ok = False
-                detail = ""
-                if r:
-                    texpr = r[0][3]
-                    if isinstance(texpr, ast.Name) and texpr.id in varmap and varmap[texpr.id][0] == "expr":
-                        texpr = varmap[texpr.id][1]
-                    texpr = A.expand(texpr, exprdefs)
-                    if isinstance(texpr, ast.BinOp) and isinstance(texpr.op, ast.Mult):
-                        relem = ev.try_eval(texpr.left, m)
-                        rcount = texpr.right
-                        # writer count must equal what was stored in the header field the reader uses
-                        hfield = rcount.attr if isinstance(rcount, ast.Attribute) and isinstance(rcount.value, ast.Name) and rcount.value.id == hdr_var else None
-                        wcount = hdr_written.get(hfield) if hfield else None
-                        ok = relem == elem and wcount is not None and A.norm(A.expand(wcount, defs)) == A.norm(A.expand(count_expr, defs))
-                        detail = f"reader: {src(texpr)} with count from header.{hfield}; writer stored {src(wcount) if wcount is not None else None} there and emits {src(count_expr)} elements"
-                ctx.check("C15.V", f"{c.name}:segment{si + 1}:same-element-type-count-offset", ok,
-                          f"{c.name}: array payload at offset {woff}: {detail or 'reader does not read an array at that offset: ' + str([(x[0], src(x[3])) for x in reads])}", c.loc(rd),
-                          sample={"class": c.name, "array": src(ftype), "offset": woff})
-                # element codec: writer E(v) for v in self.X ; reader list(v.ACC for v in arr)
-                ec = wire.struct_class(ev, elem) if isinstance(elem, CStructRef) else None
-                if ec is not None:
-                    acc = optional_codec(ctx, ec)
-                    arrvar = r[0][2] if r else None
-                    used_acc = None
-                    for x in ast.walk(rd):
-                        if isinstance(x, (ast.GeneratorExp, ast.ListComp)) and len(x.generators) == 1:
-                            g = x.generators[0]
-                            it = g.iter
-                            if isinstance(it, ast.Name) and it.id in varmap and varmap[it.id][0] == "expr":
-                                it = varmap[it.id][1]
-                            is_arr = (isinstance(it, ast.Name) and it.id == arrvar) or (isinstance(it, ast.Call) and isinstance(it.func, ast.Attribute) and it.func.attr == "from_buffer_copy")
-                            if is_arr and isinstance(g.target, ast.Name):
-                                e = x.elt
-                                if isinstance(e, ast.Call) and isinstance(e.func, ast.Attribute) and isinstance(e.func.value, ast.Name) and e.func.value.id == g.target.id:
-                                    used_acc = e.func.attr + "()"
-                                elif isinstance(e, ast.Attribute) and isinstance(e.value, ast.Name) and e.value.id == g.target.id:
-                                    used_acc = e.attr
-                    ctx.check("C15.V", f"{c.name}:elements-read-through-type-aware-accessor", acc is not None and used_acc == acc,
-                              f"{c.name}: elements are written as {ec.name}(v) (None -> null discriminant) but read back through `{used_acc}`; the accessor that honours the discriminant is `{acc}`", c.loc(rd),
-                              sample={"element": ec.name, "accessor": acc, "reader_uses": used_acc})
-        # ctor kwargs of the reader cover every constructor parameter
-        for pn in init_params:
-            ctx.check("C15.V", f"{c.name}:reader-passes-{pn}", pn in rkw, f"{c.name}.deserialize_from does not pass {pn} to the constructor", c.loc(rd), trivial=True)
-        # address path: writer Address(self.address) -> reader hdr.address.address
-        if "address" in init_params and "address" in rkw:
-            v = rkw["address"]
-            ch = A.attr_chain(v)
-            wv = None
-            for seg in segs[1:]:
-                if isinstance(seg, ast.Call):
-                    wv = A.kwargs_of(seg).get("address", wv)
-            wargs = (list(wv.args) + [k_.value for k_ in wv.keywords]) if isinstance(wv, ast.Call) else []
-            okw = isinstance(wv, ast.Call) and len(wargs) == 1 and A.norm(wargs[0]) == "self.address"
-            okr = False
-            if okw and ch and len(ch) == 3:
-                sc = ev.try_eval(wv.func, m)
-                if isinstance(sc, CStructRef):
-                    f0 = wire.struct_fields(ev, wire.struct_class(ev, sc))[0][0]
-                    okr = ch[1] == "address" and ch[2] == f0
-            ctx.check("C15.V", f"{c.name}:address-path", okw and okr, f"{c.name}: address is written as {src(wv) if wv is not None else None} but read as {src(v)}", c.loc(rd))
-    ctx.anchor("C15.V", "variable-length message classes", n, 2)
+    oc = repo.module("netqasm.lang.encoding").classes.get("OptionalInt")
+    if oc is None:
+        raise AnalysisError("encoding.OptionalInt not found")
+    ctx.fn("OptionalInt.__init__")
+    optional_codec(ctx, oc)
 
 
 def _eval_len(ctx, m, e):
@@ -623,10 +378,137 @@ def check_full_width(ctx):
     ctx.check("C15.W", "constructor-guards-examined", True, sample={"guards on stored values": n}, trivial=True)
 
 
+def check_message_round_trip(ctx, rule="C15.T"):
+    """"Messages survive serialisation", decided by executing it: every message class of both dispatch tables is constructed with
+    enumerated field values (the ends of each field's width, 0, None entries, empty and non-empty payloads, payloads that begin with
+    the message's own type byte), turned into bytes by its own bytes() / __bytes__ and decoded by the dispatcher of its table
+    (deserialize_host_msg / deserialize_return_msg) - all in the checker's interpreter with ctypes modelled (nqsa/cmodel.py).  The
+    decoded object must be of the same class and hold the same values."""
+    from .. import circuit as C
+    repo, ev = ctx.repo, ctx.ev
+    m = repo.module(MSG)
+    enc = repo.module("netqasm.lang.encoding")
+
+    def scenario():
+        sc = C.Scenario()
+        sc.ctypes_model, sc.run_constructors, sc.max_depth, sc.plain_registers, sc.strict_text = True, True, 30, True, True
+        return sc
+
+    def plain(v):
+        if isinstance(v, C.Obj):
+            return (v.cls.name if v.cls is not None else v.kind,) + tuple((k_, plain(x_)) for k_, x_ in sorted(v.fields.items()) if not k_.lower().startswith("pad"))
+        if isinstance(v, EnumMember):
+            return v.value
+        if isinstance(v, (list, tuple)):
+            return [plain(x_) for x_ in v]
+        return v
+
+    n_cls = n_inst = 0
+    for table, disp in (("MESSAGE_CLASSES", "deserialize_host_msg"), ("RETURN_MESSAGE_CLASSES", "deserialize_return_msg")):
+        dfn = m.functions.get(disp)
+        if dfn is None or table not in m.assigns:
+            raise AnalysisError(f"{table} / {disp} not found")
+        ctx.fn(f"messages.{disp}")
+        tab = ev.eval(m.assigns[table], m)
+        for key, ref in sorted(tab.items(), key=lambda kv: str(kv[0])):
+            c = _cls_of(repo, ref)
+            if c is None:
+                continue
+            n_cls += 1
+            init = repo.lookup(c, "__init__")
+            params = A.param_names(init[1])[1:] if init is not None else []
+            is_struct = ev.is_struct(c)
+            ftypes = {n_: (t_, b_) for n_, t_, b_ in wire.struct_fields(ev, c)} if is_struct else {}
+            enum_like = {x.value.id for x in ast.walk(init[1]) if isinstance(x, ast.Attribute) and x.attr == "value" and isinstance(x.value, ast.Name) and x.value.id in params} if init is not None else set()
+            # value sets per parameter
+            variants = []
+            for variant5 in range(5):
+                variant = variant5 % 4
+                kw = {}
+                for i_, p_ in enumerate(params):
+                    t_ = ftypes.get(p_, (None, None))[0]
+                    if p_ in enum_like:
+                        # a member of the enumeration the parameter is annotated / defaulted with, else a small model member
+                        em = None
+                        a_ = init[1].args
+                        for arg, dflt in zip(reversed(a_.args), reversed(a_.defaults)):
+                            if arg.arg == p_ and isinstance(dflt, ast.Attribute):
+                                ec = repo.resolve_class(init[0].module, dflt.value)
+                                if ec is not None and ev.is_enum(ec):
+                                    mem = ev.enum_members(ec)
+                                    names = sorted(mem, key=lambda k_: mem[k_])
+                                    nm = names[variant % len(names)]
+                                    em = EnumMember(ec.qualname, nm, mem[nm])
+                        if em is None:
+                            for arg in a_.args:
+                                if arg.arg == p_ and arg.annotation is not None:
+                                    ec = repo.resolve_class(init[0].module, arg.annotation)
+                                    if ec is not None and ev.is_enum(ec):
+                                        mem = ev.enum_members(ec)
+                                        names = sorted(mem, key=lambda k_: mem[k_])
+                                        nm = names[variant % len(names)]
+                                        em = EnumMember(ec.qualname, nm, mem[nm])
+                        kw[p_] = em if em is not None else EnumMember("model:Enum", f"M{variant}", variant)
+                    elif isinstance(t_, CScalar):
+                        kw[p_] = (0, t_.hi - i_, 1 + i_, (t_.lo + i_) if t_.signed else 2 + i_)[variant]
+                    elif isinstance(t_, CStructRef):
+                        sc_ = wire.struct_class(ev, t_)
+                        sub = {}
+                        for fn_, ft_, fb_ in wire.struct_fields(ev, sc_):
+                            if fn_.lower().startswith("pad") or not isinstance(ft_, CScalar):
+                                continue
+                            hi_ = (1 << fb_) - 1 if fb_ is not None else ft_.hi
+                            sub[fn_] = (0, hi_, 1, 2)[variant] & hi_
+                        kw[p_] = ("struct", sc_, sub)
+                    elif p_ == "subroutine":
+                        kw[p_] = (b"", bytes([0, 10, 7, 0]) + bytes(range(1, 15)), bytes([key.value if isinstance(key, EnumMember) else 2]) * 4 + bytes(7), bytes([0, 10, 7, 0]))[variant]
+                    elif p_ == "values":
+                        kw[p_] = ([0, None, -1, 2 ** 31 - 1, -2 ** 31, 7], [None], [], [5, 6], [None, 9])[variant5]  # the last two: same length, an undefined entry where the earlier message had a value
+                    elif p_ == "address":
+                        kw[p_] = (0, (key.value if isinstance(key, EnumMember) else 2), 0x02020202, -5)[variant]
+                    else:
+                        kw[p_] = (0, 1, 2, 3)[variant]
+                variants.append(kw)
+            bad = None
+            sc = scenario()  # one scenario per class: what a class keeps between two messages (a buffer, a table) is kept here too
+            first = None
+            for kw in variants + variants[:1]:
+                n_inst += 1
+                try:
+                    args = {k_: (C.Interp(repo, ev, sc, None).construct(v_[1], [], dict(v_[2]), None) if isinstance(v_, tuple) and v_ and v_[0] == "struct" else v_) for k_, v_ in kw.items()}
+                    o = C.Interp(repo, ev, sc, None).construct(c, [], dict(args), None)
+                    raw = C.Interp(repo, ev, sc, None).call(ast.parse("bytes(x)", mode="eval").body, {"x": o}, m)
+                    back = C.Interp(repo, ev, sc, None).call_function(m, dfn, [raw], {})
+                except C.EvalRaise as ex_:
+                    bad = bad or f"{c.name}({ {k_: plain(v_) if not isinstance(v_, tuple) else v_[2] for k_, v_ in kw.items()} }) does not survive: {ex_}"
+                    continue
+                if first is None:
+                    first = raw
+                elif kw is variants[0] and raw != first:
+                    bad = bad or f"{c.name}: the same message serialises to {raw.hex()[:60]} after other messages were serialised, to {first.hex()[:60]} before"
+                if not isinstance(back, C.Obj) or back.cls is not c:
+                    bad = bad or f"{raw.hex()} (a {c.name}) decodes as {back.cls.name if isinstance(back, C.Obj) and back.cls else back!r}"
+                    continue
+                names = [n_ for n_ in (list(ftypes) if is_struct else sorted(set(o.fields) | set(back.fields))) if not n_.lower().startswith("pad")]
+                diff = [n_ for n_ in names if plain(o.fields.get(n_)) != plain(back.fields.get(n_))]
+                if diff:
+                    bad = bad or f"{c.name}: after bytes() and {disp}() the field {diff[0]} is {plain(back.fields.get(diff[0]))!r}, it was {plain(o.fields.get(diff[0]))!r} ({raw.hex()[:60]})"
+                tla = repo.lookup_attr(c, "TYPE")
+                tval = ev.try_eval(tla[2], tla[0].module) if tla is not None and tla[2] is not None else None
+                if isinstance(tval, EnumMember) and raw[:1] != bytes([tval.value]):
+                    bad = bad or f"{c.name}: the first byte is {raw[:1].hex()}, its TYPE is {tval.value}"
+            ctx.check(rule, f"{c.name}:survives-bytes-and-{disp}", bad is None, f"{bad}", c.loc(), sample={"class": c.name, "table": table})
+    ctx.anchor(rule, "message classes sent through bytes() and their dispatcher", n_cls, 9)
+
+
 def run(ctx):
     classes = check_tables(ctx)
     check_fixed(ctx, classes)
     check_variable(ctx, classes)
+    try:
+        check_message_round_trip(ctx, "C15.T")
+    except AnalysisError as ex_:
+        ctx.error("C15.T", f"the messages cannot be evaluated: {ex_}")
     check_shadow(ctx)
     check_full_width(ctx)
     # 0 is an ordinary id / value / address: nothing int-valued may be tested by truthiness (nqsa/truth.py)
@@ -657,15 +539,15 @@ SEEDS = [
 
     dict(id="c15-shadow-again", file=E, expect="C15.H", construct="OptionalInt",
          edits=[(E, '("_value", INTEGER)', '("value", INTEGER)'), (E, "self._value", "self.value")], count="all"),
-    dict(id="c15-reader-raw-field", file=M, expect="C15.V", construct="type-aware-accessor", old="values = list(v.value for v in array_type.from_buffer_copy(raw))", new="values = list(v._value for v in array_type.from_buffer_copy(raw))"),
+    dict(id="c15-reader-raw-field", file=M, expect="C15.T", construct="", old="values = list(v.value for v in array_type.from_buffer_copy(raw))", new="values = list(v._value for v in array_type.from_buffer_copy(raw))"),
     dict(id="c15-table-swap", file=M, expect="C15.D", construct="TYPE-equals-key", old="    ReturnMessageType.RET_REG: ReturnRegMessage,\n    ReturnMessageType.RET_ARR: ReturnArrayMessage,", new="    ReturnMessageType.RET_REG: ReturnArrayMessage,\n    ReturnMessageType.RET_ARR: ReturnRegMessage,"),
     dict(id="c15-table-missing", file=M, expect="C15.D", construct="SIGNAL:has-class", old="    MessageType.SIGNAL: SignalMessage,\n", new=""),
     dict(id="c15-wrong-type", file=M, expect="C15.D", construct="STOP_APP", old="    TYPE = MessageType.STOP_APP", new="    TYPE = MessageType.SIGNAL"),
-    dict(id="c15-ctor-drops-field", file=M, expect="C15.S", construct="remote_epr_socket_id", old="        self.remote_epr_socket_id = remote_epr_socket_id\n", new="        self.remote_epr_socket_id = epr_socket_id\n"),
-    dict(id="c15-hdr-skip", file=M, expect="C15.V", construct="ReturnArrayMessage", old="        raw = raw[ReturnArrayMessageHeader.len() :]", new="        raw = raw[MESSAGE_TYPE_BYTES :]"),
-    dict(id="c15-len-off", file=M, expect="C15.V", construct="ReturnArrayMessage", old="            length=len(self.values),", new="            length=len(self.values) - 1,"),
-    dict(id="c15-sub-offset", file=M, expect="C15.V", construct="SubroutineMessage", old="        return cls(subroutine=raw[MESSAGE_TYPE_BYTES:])", new="        return cls(subroutine=raw[MESSAGE_TYPE_BYTES + 1:])"),
-    dict(id="c15-shared-payload-buffer", file=M, expect="C15.V", construct="built-from-this-message-only",
+    dict(id="c15-ctor-drops-field", file=M, expect="C15", construct="", old="        self.remote_epr_socket_id = remote_epr_socket_id\n", new="        self.remote_epr_socket_id = epr_socket_id\n"),
+    dict(id="c15-hdr-skip", file=M, expect="C15.T", construct="", old="        raw = raw[ReturnArrayMessageHeader.len() :]", new="        raw = raw[MESSAGE_TYPE_BYTES :]"),
+    dict(id="c15-len-off", file=M, expect="C15.T", construct="", old="            length=len(self.values),", new="            length=len(self.values) - 1,"),
+    dict(id="c15-sub-offset", file=M, expect="C15.T", construct="", old="        return cls(subroutine=raw[MESSAGE_TYPE_BYTES:])", new="        return cls(subroutine=raw[MESSAGE_TYPE_BYTES + 1:])"),
+    dict(id="c15-shared-payload-buffer", file=M, expect="C15.T", construct="",
          edits=[(M, "    def __bytes__(self):\n        array_type = OptionalInt * len(self.values)\n        payload = array_type(*(OptionalInt(v) for v in self.values))\n",
                  "    _payloads = {}\n\n    def __bytes__(self):\n        payload = self._payloads.get(len(self.values))\n        if payload is None:\n            payload = (OptionalInt * len(self.values))()\n            self._payloads[len(self.values)] = payload\n        for i, v in enumerate(self.values):\n            if v is not None:\n                payload[i] = OptionalInt(v)\n")]),
     dict(id="c15-optional-mirror", file=E, expect="C15.H", construct="mirror", old="        if self.type == self._NULL_TYPE:\n            return None", new="        if self.type == self._INT_TYPE and self._value == 0:\n            return None"),
